@@ -18,7 +18,8 @@ shape turns up):
   ADDITEMS including the C implementation's quirks (a one-element exact list or dict uses
   APPEND / SETITEM; an exact dict or set whose size is a positive multiple of 1000 gets a
   trailing empty batch; the iterator form used for `dictitems` writes a trailing single item with
-  SETITEM).
+  SETITEM).  Cells that stand for no Python object (`cellOK`: a class whose module / qualified name is not a
+  string, an instance whose class is not a class) are refused like dangling references.
 * `load ops`: the unpickler's virtual machine (stack, mark stack, memo).  An object created by
   NEWOBJ / REDUCE has **no state** (`state = none`) until its BUILD — and BUILD comes after the
   state's children were unpickled, so inside a cycle a dict can receive a key whose `__dict__` is
@@ -128,6 +129,29 @@ def emitPops (st : DState) : Nat → DState
   | 0 => st
   | k + 1 => emitPops (st.emit .pop) k
 
+def strOf (h : Heap) : Val → Option String
+  | .ref a => match h[a]? with | some (.str s) => some s | _ => Option.none
+  | _ => Option.none
+
+/-- (module, qualified name) of a class value -/
+def clsName (h : Heap) : Val → Option (String × String)
+  | .ref a => match h[a]? with
+    | some (.global m q) => match strOf h m, strOf h q with
+      | some ms, some qs => some (ms, qs)
+      | _, _ => Option.none
+    | _ => Option.none
+  | _ => Option.none
+
+/-- typing facts about Python objects: the module and the qualified name of a class are strings; the class of an
+instance and the callee of a reduction are classes.  A cell that violates them stands for no Python object
+(`save_global` fetches `__qualname__` / the module name as strings and looks the class up; `type(obj)` is a
+class), and `save` gives up on it like on a dangling reference. -/
+def cellOK (h : Heap) : Obj → Bool
+  | .global m q => (strOf h m).isSome && (strOf h q).isSome
+  | .inst c _ => (clsName h c).isSome
+  | .reduced c _ _ => (clsName h c).isSome
+  | _ => true
+
 /-- `save(obj)`; `fuel` bounds the nesting depth -/
 def save (h : Heap) : Nat → Val → DState → Option DState
   | _, .none, st => some (st.emit .none)
@@ -171,38 +195,44 @@ def save (h : Heap) : Nat → Val → DState → Option DState
         (saveItems (fun x st => save h fuel x st) .additems .additems .setStyle 0 xs
           ((st.emit .emptySet).memoize a)).map (trailingBatch xs.length .additems)
       | some (.global m q) =>
-        match save h fuel m st with
-        | Option.none => Option.none
-        | some st1 =>
-          match save h fuel q st1 with
+        if cellOK h (.global m q) then
+          match save h fuel m st with
           | Option.none => Option.none
-          | some st2 => some ((st2.emit .stackGlobal).memoize a)
+          | some st1 =>
+            match save h fuel q st1 with
+            | Option.none => Option.none
+            | some st2 => some ((st2.emit .stackGlobal).memoize a)
+        else Option.none
       | some (.inst cls state) =>
-        match save h fuel cls st with
-        | Option.none => Option.none
-        | some st1 =>
-          let st2 := (((st1.emit (.tupleN 0)).emit .newobj).memoize a)
-          match state with
-          | Option.none => some st2
-          | some s => (save h fuel s st2).map (·.emit .build)
-      | some (.reduced callee kvs state) =>
-        match save h fuel callee st with
-        | Option.none => Option.none
-        | some st1 =>
-          match saveItems (fun (p : Val × Val) st => (save h fuel p.1 st).bind (save h fuel p.2))
-              .setitem .setitems .iter 0 kvs (((st1.emit (.tupleN 0)).emit .reduce).memoize a) with
+        if cellOK h (.inst cls state) then
+          match save h fuel cls st with
           | Option.none => Option.none
-          | some st2 =>
+          | some st1 =>
+            let st2 := (((st1.emit (.tupleN 0)).emit .newobj).memoize a)
             match state with
             | Option.none => some st2
             | some s => (save h fuel s st2).map (·.emit .build)
+        else Option.none
+      | some (.reduced callee kvs state) =>
+        if cellOK h (.reduced callee kvs state) then
+          match save h fuel callee st with
+          | Option.none => Option.none
+          | some st1 =>
+            match saveItems (fun (p : Val × Val) st => (save h fuel p.1 st).bind (save h fuel p.2))
+                .setitem .setitems .iter 0 kvs (((st1.emit (.tupleN 0)).emit .reduce).memoize a) with
+            | Option.none => Option.none
+            | some st2 =>
+              match state with
+              | Option.none => some st2
+              | some s => (save h fuel s st2).map (·.emit .build)
+        else Option.none
 
 def dumpFuel (h : Heap) : Nat := (h.size + 1) * (h.size + 1) + 1
 
 def initD (h : Heap) : DState := { tbl := Array.replicate h.size Option.none, n := 0, out := #[] }
 
-/-- `pickle.dumps`: `none` if the graph has a dangling reference, an empty tuple object, or a cycle
-through tuples / frozensets only (no such Python object exists) -/
+/-- `pickle.dumps`: `none` if the graph has a dangling reference, an empty tuple object, an ill-typed class /
+instance / reduction cell (`cellOK`), or a cycle through tuples / frozensets only (no such Python object exists) -/
 def dump (h : Heap) (r : Val) : Option (List Op) :=
   (save h (dumpFuel h) r (initD h)).map fun st => (st.out.push .stop).toList
 
@@ -224,19 +254,6 @@ def LState.push (st : LState) (v : Val) : LState := { st with stack := v :: st.s
 
 def LState.alloc (st : LState) (o : Obj) : LState :=
   { st with heap := st.heap.push o, stack := .ref st.heap.size :: st.stack }
-
-def strOf (h : Heap) : Val → Option String
-  | .ref a => match h[a]? with | some (.str s) => some s | _ => Option.none
-  | _ => Option.none
-
-/-- (module, qualified name) of a class value -/
-def clsName (h : Heap) : Val → Option (String × String)
-  | .ref a => match h[a]? with
-    | some (.global m q) => match strOf h m, strOf h q with
-      | some ms, some qs => some (ms, qs)
-      | _, _ => Option.none
-    | _ => Option.none
-  | _ => Option.none
 
 /-! ## reachability, the key-cycle proviso -/
 
@@ -459,6 +476,13 @@ def noKeyCycle (hr : String → String → Bool) (h : Heap) (r : Val) : Bool :=
        | some o => (keysOf o).all fun k =>
            (hashedInsts hr h 8 k).all fun i => !((reach h (.ref i)).getD d false)
        | Option.none => true)
+
+/-! ## well-typed heaps -/
+
+def wellTyped (h : Heap) : Bool := h.toList.all (cellOK h)
+
+/-- the number of objects the pickler memoised (every visited address once) -/
+def dumpCount (h : Heap) (r : Val) : Option Nat := (save h (dumpFuel h) r (initD h)).map (·.n)
 
 /-! ## isomorphism of rooted heaps -/
 
